@@ -1,6 +1,7 @@
 """C03 - sustains, end tick, end time and last-note-end are faithful to the lines."""
 from vf.runner import Ob
 from .common import *  # noqa: F401,F403
+from .common import _ned
 
 LEVEL = "model_checking"
 IN = "chartparse.instrument."
@@ -26,10 +27,9 @@ def obligations(tier):
         Ob("C03.sustain_subsets", "CH", "harness.h_instrument", "sustain_subsets", 900, funcs=(IN + "complex_sustain_from_parsed_datas", IN + "_refined_sustain_tuple"),
            bounds="all 31 lane subsets (up to 5 lane lines + a flag line), one symbolic base length, one lane differing by a symbolic delta"),
         Ob("C03.longest_and_end", "CH", "harness.h_instrument", "longest_and_end", 300, funcs=(IN + "NoteEvent.longest_sustain", IN + "NoteEvent.end_tick", IN + "NoteEvent._longest_sustain", IN + "NoteEvent._end_tick")),
-        Ob("C03.note_event_dataflow", "CH", "harness.h_instrument", "note_event_dataflow", 300, funcs=(IN + "NoteEvent.from_parsed_data",),
-           bounds="end_timestamp is the tempo-map time of tick+max length, asked with the start's returned hint"),
         Ob("C03.last_note_end", "CH", "harness.h_instrument", "last_note_end", 120, funcs=(IN + "InstrumentTrack.last_note_end_timestamp",), bounds="<=4 notes, symbolic end times"),
     ]
+    obs += _ned("C03.note_event_dataflow", tier, (IN + "NoteEvent.from_parsed_data",))
     idxs = ["0,1", "7", "0,5,4"] if tier == "quick" else ["0,1", "7", "0,5,4", "7,6", "1,2,3", "0,0", "4,3", "0,1,2,3"]
     for ix in idxs:
         obs.append(Ob(f"C03.integrated.note_section[{ix}]", "CH", "harness.h_integrated", "note_section", 1200, {"VF_IDX": ix, "VF_ORDER": 1},
